@@ -24,7 +24,8 @@ def parse_reports(paths):
                     continue
                 frames = re.findall(r"\n\s+(\S+\(.*?\)|\S+)\n\s+(\S+):(\d+)", "\n" + st)
                 if frames:
-                    fn, file, line = frames[0]
+                    # the accessing function is the first frame outside the Go runtime (a map access shows as runtime.mapassign...)
+                    fn, file, line = next((f for f in frames if not f[0].startswith("runtime.")), frames[0])
                     fw = next((f for f in frames if f[0].startswith(FRAMEWORK)), None)
                     acc.append({"kind": m.group(1), "fn": fn, "file": file, "line": int(line), "framework": fn.startswith(FRAMEWORK),
                                 "first_framework_frame": (fw[0] if fw else "")})
